@@ -71,7 +71,8 @@ ASSUMPTIONS = [
     '(Excel: #NUM!, the library and the usual convention: 1 - property C16 owns POWER); '
     'arithmetic on a text that is not a plain decimal integer (Excel and dateutil read 1-2 as a date)',
     '% only directly after a numeric literal without exponent (a reference or parenthesis followed by % is known '
-    'finding D3, outside the generated grammar); scientific literals in Excel\'s normalised form d[.ddd]E+dd; '
+    'finding D3, outside the generated grammar); scientific literals mE+dd / mE-dd with any decimal numeral m as '
+    'mantissa (ddd, ddd.ddd, ddd., .ddd - not only Excel\'s normalised d[.ddd]; repair D0101); '
     'no unary plus, no strings, booleans, error literals or function calls in the formulas',
     'blanks and newlines only where the statement allows them (around operators, parentheses, leading/trailing)',
     'generator caps (not exclusions of the comparison): exponents above 400 and values beyond 1e300 are not '
@@ -565,6 +566,7 @@ LEAF_VARIANTS = [
     ('decimal', lambda c: N('1', '5')),
     ('sci+', lambda c: N('1', '5', '+2')),
     ('sci-', lambda c: N('2', None, '-1')),
+    ('sci-wide', lambda c: N('20', None, '-1')),      # mantissa other than Excel's normalised d[.ddd] (D0101)
 ]
 TRIPLE_VARIANTS = [LEAF_VARIANTS[0], LEAF_VARIANTS[1], LEAF_VARIANTS[3]]
 
@@ -651,7 +653,10 @@ def triple_shapes(o1, o2, o3, lv):
 SAMEPREC = g.SAMEPREC
 SMALL_LITS = [N('1'), N('2'), N('3'), N('4'), N('6'), N('9'), N('10'), N('0')]
 OTHER_LITS = [N('0', '5'), N('1', '5'), N('2', '25'), N('0', '25'), N('50', pct=True), N('12', '5', pct=True),
-              N('200', pct=True), N('1', '5', '+2'), N('2', None, '-1'), N('5', None, '+0'), N('1', '25', '+1')]
+              N('200', pct=True), N('1', '5', '+2'), N('2', None, '-1'), N('5', None, '+0'), N('1', '25', '+1'),
+              # any decimal numeral as mantissa (D0101), `.5`, `5.`
+              N('80', None, '-3'), N('12', None, '+1'), N('0', '5', '+1'), N('12', '5', '+0'), N('100', None, '-2'),
+              N('', '5', '+1'), N('5', '', '-1'), N('', '25'), N('3', ''), N('', '5', pct=True)]
 OP_WEIGHTED = (['pow'] * 3 + ['mul'] * 4 + ['div'] * 4 + ['add'] * 4 + ['sub'] * 4 + ['cat'] * 2
                + ['eq', 'ne', 'lt', 'gt', 'le', 'ge'])
 
@@ -803,16 +808,18 @@ def power_order_cases(ctx, res, chk):
 
 
 def user_spellings(ctx, res, chk):
-    """numeric literals as a USER may write them in a formula given to read_and_parse_dict — outside the form Excel
-    stores (Spec.C02.NumLit wants digits on both sides of the point and a normalised mantissa), hence outside the
-    theorems; still plain / percent / scientific numerals of the statement.  Oracle: exact decimal arithmetic;
-    the Lean model is compared too (drift).  Not included: a scientific literal whose mantissa is not d[.ddd]
-    (`.5E+1`, `5.E-1`, `12E+3`): the tokenizer only glues the normalised form, Excel never stores another."""
+    """numeric literals as a USER may write them in a formula given to read_and_parse_dict — beyond the form Excel
+    stores: leading zeros, a lower-case `e`, an exponent without sign (outside Spec.C02.NumLit, hence outside the
+    theorems), `.5` / `5.` and scientific literals whose mantissa is any decimal numeral, not only Excel's normalised
+    d[.ddd] (`.5E+1`, `5.E-1`, `12E+3`, `80E-3`: inside NumLit since repair D0101 — the tokenizer used to glue the
+    exponent sign only onto d[.ddd] and `=80E-3` evaluated to -3).  All are plain / percent / scientific numerals
+    of the statement.  Oracle: exact decimal arithmetic; the Lean model is compared too (drift)."""
     from decimal import Decimal
     env = ENVS[0]
     a1 = Fraction(dict(env)['A1'])
     nums = ['.5', '5.', '.25', '0.5', '.25%', '5.%', '.5%', '01.50', '007', '1e2', '1E2', '1.5e+2', '1E+02', '1e-2',
-            '2.50E-3', '.125', '10.', '0.', '.0']
+            '2.50E-3', '.125', '10.', '0.', '.0',
+            '.5E+1', '5.E-1', '12E+3', '80E-3', '0.5E+1', '.8e-1', '12.5E+0', '100E-2']
     forms, wants = [], []
     for n in nums:
         q = Fraction(Decimal(n.rstrip('%')))
